@@ -169,8 +169,8 @@ def _run_fit(case, ctx):
     from pgverif.core import _h
     dg = _h([case["kernel"], list(numpy.round(w, 6)), len(p), order])
     if case["entry"] == "isotherm":
-        iso = pygaps.PointIsotherm(pressure=list(p), loading=list(n), branch="ads", material="verif-c18", adsorbate="nitrogen", temperature=77.355, pressure_mode="relative", pressure_unit=None,
-                                   **{kk: v for kk, v in gen.DEFAULT_UNITS.items() if not kk.startswith("pressure")})
+        iso = pygaps.PointIsotherm(pressure=list(p), loading=list(n), branch="ads", material="verif-c18", adsorbate="nitrogen", pressure_mode="relative", pressure_unit=None,
+                                   **dict({kk: v for kk, v in gen.DEFAULT_UNITS.items() if not kk.startswith("pressure")}, **gen.temp_kw(77.355)))
         res = _call(pk.psd_dft, iso, kernel=path if case["kernel"] == "user" else "DFT-N2-77K-carbon-slit", bspline_order=order)
     else:
         res = _call(pk.psd_dft_kernel_fit, p, n, path, order)
@@ -250,7 +250,7 @@ def _run_limits(case, ctx):
         i0 = r.randint(3, len(p) - 12)
         i1 = i0 + narrow - 1
     lims = (float((p[i0 - 1] + p[i0]) / 2), float((p[i1] + p[i1 + 1]) / 2))
-    kw = dict(material="verif-c18", adsorbate="nitrogen", temperature=77.355, pressure_mode="relative", pressure_unit=None, **{kk: v for kk, v in gen.DEFAULT_UNITS.items() if not kk.startswith("pressure")})
+    kw = dict(material="verif-c18", adsorbate="nitrogen", pressure_mode="relative", pressure_unit=None, **dict({kk: v for kk, v in gen.DEFAULT_UNITS.items() if not kk.startswith("pressure")}, **gen.temp_kw(77.355)))
     order = r.randint(0, 3)
     a = _call(pk.psd_dft, pygaps.PointIsotherm(pressure=list(p), loading=list(n), branch="ads", **kw), p_limits=lims, bspline_order=order)
     n2 = n.copy()
